@@ -370,8 +370,10 @@ impl McnkChunk {
             // Read the 8-byte chunk header (magic + size, where size is always 0)
             let _chunk_header = ChunkHeader::read_le(reader)?;
 
-            // Read the actual data using size_liquid from MCNK header
-            let mut data = vec![0u8; header.size_liquid as usize];
+            // Read the actual data using size_liquid from MCNK header.
+            // size_liquid counts the 8-byte MCLQ chunk header as well (it is 8 for
+            // "no liquid"), so the data is 8 bytes shorter.
+            let mut data = vec![0u8; header.size_liquid.saturating_sub(8) as usize];
             reader.read_exact(&mut data)?;
 
             if !data.is_empty() {
